@@ -9,7 +9,7 @@ git -C /repo worktree remove --force /tmp/evalrepo$T 2>/dev/null || true
 git -C /repo worktree prune
 git -C /repo worktree add --detach /tmp/evalrepo$T HEAD >/dev/null
 mkdir -p /tmp/evalverif$T
-rsync -a --delete --exclude .git --exclude replays --exclude 'target/fuzz*' /verif/ /tmp/evalverif$T/
+rsync -a --delete --exclude .git --exclude replays --exclude target /verif/ /tmp/evalverif$T/
 cd /tmp/evalverif$T
 sed -i "s|path = \"/repo/|path = \"/tmp/evalrepo$T/|" harness/Cargo.toml harness/fuzz/Cargo.toml
 sed -i "s|pub const VERIF_ROOT: &str = \"/verif\";|pub const VERIF_ROOT: \&str = \"/tmp/evalverif$T\";|" harness/vcore/src/lib.rs
